@@ -142,7 +142,8 @@ def c09_xcorr(ctx, case):
 @st.composite
 def auto_case(draw):
     x = draw(gen.signal(3, 40, "any", kinds=KINDS))
-    m = draw(st.integers(1, x["n"] - 1))
+    # orders 0 .. N-1, both ends over-weighted (order 0: a single column, Gram matrix [N r0])
+    m = draw(st.one_of(st.integers(0, x["n"] - 1), st.integers(0, x["n"] - 1), st.sampled_from([0, 1, x["n"] - 1])))
     return {"x": x, "m": m}
 
 
@@ -170,8 +171,8 @@ def c09_gram(ctx, case):
     m = case["m"]
     N = len(x)
     X = spectrum.corrmtx(x, m, "autocorrelation")
-    ctx.cls(gen.describe(case["x"]))
-    ctx.nontrivial(m >= 2 and gen.is_nonconstant(x))
+    ctx.cls(gen.describe(case["x"]), "m=0" if m == 0 else ("m=N-1" if m == N - 1 else "m inside"))
+    ctx.nontrivial((m >= 2 or m == 0) and gen.is_nonconstant(x))
     ctx.check(X.shape == (N + m, m + 1), "autocorrelation data matrix has shape %s" % (X.shape,))
     G = X.conj().T.dot(X)
     r = ref.autocorr_biased(x, m)
@@ -187,7 +188,7 @@ def c09_gram(ctx, case):
 @st.composite
 def mtx_case(draw):
     x = draw(gen.signal(3, 40, "any", kinds=KINDS))
-    m = draw(st.integers(1, x["n"] - 1))
+    m = draw(st.one_of(st.integers(0, x["n"] - 1), st.integers(0, x["n"] - 1), st.sampled_from([0, 1, x["n"] - 1])))
     return {"x": x, "m": m, "method": draw(st.sampled_from(["autocorrelation", "prewindowed", "postwindowed",
                                                             "covariance", "modified"])),
             "as_list": draw(st.booleans())}
@@ -217,8 +218,8 @@ def c09_mtx(ctx, case):
         exp = full[m:N]
     else:
         exp = np.vstack([full[m:N], np.fliplr(full[m:N].conj())])
-    ctx.cls(meth, gen.describe(case["x"]))
-    ctx.nontrivial(m >= 2 and gen.is_nonconstant(x))
+    ctx.cls(meth, gen.describe(case["x"]), "m=0" if m == 0 else ("m=N-1" if m == N - 1 else "m inside"))
+    ctx.nontrivial((m >= 2 or m == 0) and gen.is_nonconstant(x))
     ctx.check(X.shape == exp.shape, "corrmtx(%s) shape %s, expected %s" % (meth, X.shape, exp.shape))
     ctx.close(X.astype(complex), exp, "corrmtx(%s) entries" % meth, rtol=0, atol=0)
 
